@@ -225,13 +225,42 @@ func (c *ctx) inputAccounting() {
 		return
 	}
 	// the loop over the directive's arguments and the flow under construction
-	var loop *ast.RangeStmt
-	ast.Inspect(cf.Body, func(n ast.Node) bool {
-		if rs, ok := n.(*ast.RangeStmt); ok && loop == nil {
-			if sl, ok := astx.Unparen(rs.X).(*ast.SliceExpr); ok {
-				if se, ok := astx.Unparen(sl.X).(*ast.SelectorExpr); ok && se.Sel.Name == "Args" {
-					loop = rs
+	// (a range over call.Args[1:], or any for/range loop whose body dispatches on option names: a switch
+	// with a string case "Task")
+	var loop ast.Node
+	var loopBody *ast.BlockStmt
+	dispatches := func(b *ast.BlockStmt) bool {
+		found := false
+		ast.Inspect(b, func(n ast.Node) bool {
+			if cc, ok := n.(*ast.CaseClause); ok {
+				for _, e := range cc.List {
+					if bl, ok := astx.Unparen(e).(*ast.BasicLit); ok && bl.Kind == token.STRING && bl.Value == `"Task"` {
+						found = true
+					}
 				}
+			}
+			return !found
+		})
+		return found
+	}
+	ast.Inspect(cf.Body, func(n ast.Node) bool {
+		if loop != nil {
+			return false
+		}
+		switch l := n.(type) {
+		case *ast.RangeStmt:
+			if sl, ok := astx.Unparen(l.X).(*ast.SliceExpr); ok {
+				if se, ok := astx.Unparen(sl.X).(*ast.SelectorExpr); ok && se.Sel.Name == "Args" {
+					loop, loopBody = l, l.Body
+					return false
+				}
+			}
+			if dispatches(l.Body) {
+				loop, loopBody = l, l.Body
+			}
+		case *ast.ForStmt:
+			if dispatches(l.Body) {
+				loop, loopBody = l, l.Body
 			}
 		}
 		return true
@@ -257,7 +286,7 @@ func (c *ctx) inputAccounting() {
 	}
 	nBad := 0
 	readsFlow := func(e ast.Node, depth int) bool { return c.readsAccumulated(fc2, e, flowObj, depth) }
-	ast.Inspect(loop.Body, func(n ast.Node) bool {
+	ast.Inspect(loopBody, func(n ast.Node) bool {
 		call, ok := n.(*ast.CallExpr)
 		if !ok {
 			return true
@@ -267,7 +296,7 @@ func (c *ctx) inputAccounting() {
 			return true
 		}
 		for _, cd := range fc2.par.Known(call, loop) {
-			if !fc2.par.Within(cd.At, loop.Body) {
+			if !fc2.par.Within(cd.At, loopBody) {
 				continue
 			}
 			// conditions introduced by `if v := f(flow...); cond(v)` count through their init statement
